@@ -179,6 +179,8 @@ let op_lit (args : str list) : str list =
            (match date_read_back y m d with None -> [txt; "none"]
             | Some ((a, b), c) -> [txt; dec_of_n a; dec_of_n b; dec_of_n c])
        | _ -> ["none"])
+  | "mstext" :: h :: _ ->
+      (match read_milliseconds (text_of_hex h) with None -> ["none"] | Some (a, b) -> [dec_of_n a; dec_of_n b])
   | "addr" :: h :: _ ->
       (match address (text_of_hex h) with
        | None -> ["none"]
